@@ -171,7 +171,7 @@ def rule_value_pure(ctx):
                 acc = (n.func.attr, 'value.%s()' % n.func.attr)
             elif isinstance(n, ast.Call) and isinstance(n.func, ast.Name) and n.func.id in ('enumerate', 'iter', 'list', 'tuple', 'sorted') \
                     and n.args and norm(n.args[0]) == 'value':
-                acc = ('__iter__', '%s(value)' % n.func.id)
+                acc = ('__iter__', 'for ... in value')      # one key for every spelling of an iteration over the value
             elif isinstance(n, (ast.For, ast.comprehension)) and norm(n.iter) == 'value':
                 acc = ('__iter__', 'for ... in value')
             elif isinstance(n, ast.Subscript) and norm(n.value) == 'value' and isinstance(n.ctx, ast.Load):
@@ -198,6 +198,17 @@ def rule_value_pure(ctx):
                         cur = cur.parent
                     if cur in a.body:
                         inpy = True
+            if not inpy:
+                # the same through guard clauses: `if asn1Spec is None: ...return` puts what follows in the python arm
+                try:
+                    from sa.cfg import known_at
+                    cfg_ = ctx.cfg(m)
+                    st_ = n
+                    while not (isinstance(st_, ast.stmt) and st_ in cfg_.node_of):
+                        st_ = st_.parent
+                    inpy = known_at(cfg_, cfg_.node_of[st_], 'asn1Spec is None', False)
+                except Exception:
+                    inpy = False
             if inpy:
                 continue
             name, text = acc
